@@ -10,6 +10,7 @@ from driver import Undecided, VERIF, WORK
 import interp
 import codec
 import disasm
+import asm
 
 MACHINERY_FILES = ('src/spec.rs', 'contract.rs', 'src/shadow.rs', 'src/x86.rs')
 
@@ -164,11 +165,40 @@ def verus_unit(gen, trusted=None, assumptions=None):
     return run
 
 
+def native_unit(args, what):
+    """exhaustive native evaluation by the replay tool (links the real crate): one OBLIGATION line per case"""
+    import subprocess
+    import time
+
+    def run(unit_name, parts, tier, use_cache, jobs, pid=None):
+        import props
+        exe = props.replay_tool()
+        t0 = time.time()
+        p = subprocess.run([exe] + args, capture_output=True, text=True, timeout=900)
+        obligations = []
+        for line in p.stdout.splitlines():
+            if line.startswith('OBLIGATION '):
+                _, name, st, *rest = line.split(' ', 3)
+                if not any(pp.harness(name) for pp in parts):
+                    continue
+                obligations.append(dict(unit=unit_name, harness=name, name=what + ': ' + name,
+                                        status='ok' if st == 'ok' else 'failed', backend='native evaluation (exhaustive over a finite table), real crate',
+                                        output=' '.join(rest)[:600], why='', reproduced=True))
+        if not obligations:
+            raise Undecided('replay %s printed no obligations: %s' % (' '.join(args), (p.stdout + p.stderr)[-800:]))
+        meta = dict(cmd=exe + ' ' + ' '.join(args), backend='native evaluation of a closed finite table through the public API (not SMT)',
+                    wall_s=round(time.time() - t0, 1), trusted=[], assumptions=[])
+        return dict(obligations=obligations, known=[], samples=[dict(unit=unit_name, sample=obligations[0]['name'])], meta=meta)
+    return run
+
+
 UNITS = {
     'interp': dict(run=kani_unit(interp.generate, harness_file='src/interpreter/harnesses.rs'),
                    witness=None),
     'codec': dict(run=kani_unit(codec.generate, harness_file='src/lib.rs')),
     'disasm': dict(run=kani_unit(disasm.generate, harness_file='src/disassembler/harnesses.rs')),
+    'asm': dict(run=kani_unit(asm.generate, harness_file='src/assembler.rs')),
+    'asmtable': dict(run=native_unit(['asm-table'], 'assemble() of the documented mnemonic')),
 }
 
 
